@@ -15,7 +15,7 @@ import c06
 # control characters, a currency sign, and characters that Unicode - but not the standard - counts as white space
 # (vertical tab, NEL, no-break space, line separator; round-3 seeded change: char::is_whitespace in white_space())
 BAD = ["\x01", "\x7f", "¤", "\x0b", "\u00a0", "\u2028", "\u0085"]
-CLOSERS = {")", "]", "}", "end", "endmodule", "endcase", "endfunction", "endtask", "endclass", "endpackage", "endinterface", "endprogram", "endgenerate"}
+CLOSERS = {")", "]", "}", "end", "endmodule", "endcase", "endfunction", "endtask", "endclass", "endpackage", "endinterface", "endprogram", "endgenerate", "endchecker"}
 
 
 def boundaries(res):
@@ -101,9 +101,17 @@ def run(tier, seed):
     cor = [x for x in corpus.parser_corpus() if x["kind"] == "sv" and "`" not in x["text"] and len(x["text"]) < 1500]
     rng.shuffle(cor)
     bases += [x["text"] for x in cor[: (40 if quick else 400)]]
+    # sources whose keyword regions are selected by conditional compilation (the preprocessor's own parser run sees BOTH
+    # `begin_keywords, the main run one): deleting a block-closing keyword must still be a parse error (round-4 seeded
+    # change: a stale old-standard entry on the version stack made 'package p;' a data declaration)
+    REG = "package p; typedef int t; endpackage\nprogram q; endprogram\ninterface i; logic a; endinterface\nmodule m; endmodule\n"
+    for first, second in (("1364-2001", "1800-2017"), ("1364-1995", "1800-2012"), ("1364-2005", "1800-2009")):
+        # (the region is closed again before the constructs: behind it the default set is in force)
+        bases.insert(0, '`ifdef KW_SEL\n`begin_keywords "%s"\n`else\n`begin_keywords "%s"\n`endif\nmodule a; endmodule\n`end_keywords\n%s' % (first, second, REG))
+        bases.insert(0, '`begin_keywords "%s"\nmodule old; reg logic; endmodule\n`end_keywords\n%s`begin_keywords "%s"\n%s`end_keywords\n' % (first, REG, second, REG))
     pcases = []
     for i, s in enumerate(bases):
-        if i % 2 == 0:
+        if i % 2 == 0 or s.startswith("`"):
             files = {"top.sv": s}
         else:
             files = {"top.sv": "// top\n`include \"body.svh\"\n", "body.svh": s}
